@@ -6,8 +6,9 @@ Open Scope N_scope.
 
 Lemma arg_ok_fixed p cr bk ap rs ml a c : arg_ok (cfg_fixed p cr bk ap rs ml) a c.
 Proof.
-  unfold arg_ok, safe_media, safe_switch, msafe, cfg_fixed; cbn. destruct a; auto.
+  unfold arg_ok, safe_media, safe_switch, msafe, cfg_fixed; cbn. destruct a; try exact I.
   - split; [intros; right; reflexivity|right; left; reflexivity].
+  - left; reflexivity.
   - split; [apply Forall_forall; intros; right; reflexivity|right; left; reflexivity].
 Qed.
 
